@@ -34,7 +34,8 @@ type histNode struct {
 }
 
 type history struct {
-	byHash map[types.Hash]*histNode
+	byHash  map[types.Hash]*histNode
+	blockIn map[types.Hash][]types.Hash // account-block hash -> momentums (of any branch) that contain it
 	paths  [][]types.Hash // full paths from genesis; paths[0] is the trunk; index = height-1
 	forkAt []uint64       // height of the last momentum shared with the trunk (0 for the trunk itself)
 }
@@ -54,6 +55,10 @@ func (h *history) record(dm *nom.DetailedMomentum) *histNode {
 			panic(err)
 		}
 		n.blocks = append(n.blocks, bb)
+		if h.blockIn == nil {
+			h.blockIn = map[types.Hash][]types.Hash{}
+		}
+		h.blockIn[b.Hash] = append(h.blockIn[b.Hash], n.hash)
 	}
 	h.byHash[n.hash] = n
 	return n
@@ -213,15 +218,21 @@ func elemTok(e elem) string {
 
 var corruptKinds = []string{"sig", "changes", "hash", "producer", "dropblock", "addblock", "blocksig", "timestamp", "blockamount", "prevhash"}
 
-// corrupt alters one delivered momentum so that full verification must refuse it.
-func corrupt(c *Ctx, hist *history, e *elem, kind string) {
-	m := e.dm.Momentum
+// lastUserBlock: the account block the block-level corruptions (blocksig, blockamount) alter; -1 if there is none.
+func lastUserBlock(dm *nom.DetailedMomentum) int {
 	userBlock := -1
-	for i, b := range e.dm.AccountBlocks {
+	for i, b := range dm.AccountBlocks {
 		if b.BlockType == nom.BlockTypeUserSend || b.BlockType == nom.BlockTypeUserReceive {
 			userBlock = i
 		}
 	}
+	return userBlock
+}
+
+// corrupt alters one delivered momentum so that full verification must refuse it.
+func corrupt(c *Ctx, hist *history, e *elem, kind string) {
+	m := e.dm.Momentum
+	userBlock := lastUserBlock(e.dm)
 	switch kind {
 	case "dropblock":
 		if len(e.dm.AccountBlocks) == 0 {
@@ -1058,6 +1069,7 @@ func (r *syncRun) invalidOp(f *syncFollower, cur []types.Hash, p int, forceKind 
 	var b []elem
 	kind := "invalid-ext"
 	path := r.hist.paths[p]
+	forkAt := H // height of the momentum the first unknown element extends (below H: the node rolls back to it first)
 	if room := len(path) - H; room > 0 && (wantFork == 0 || (wantFork < 0 && c.R.Intn(3) != 0)) {
 		b = r.seg(path, H+1, H+1+c.R.Intn(imin(room, 8)))
 		if c.R.Intn(3) == 0 && H > 2 { // with a known prefix, so that the index offset matters
@@ -1078,6 +1090,7 @@ func (r *syncRun) invalidOp(f *syncFollower, cur []types.Hash, p int, forceKind 
 		}
 		b = r.seg(fp, cp+1, len(fp))
 		kind = "invalid-fork"
+		forkAt = cp
 		if c.R.Intn(3) == 0 && cp > 1 {
 			b = append(r.seg(fp, cp-imin(cp-1, 3)+1, cp), b...)
 			kind = "invalid-fork-overlap"
@@ -1106,7 +1119,40 @@ func (r *syncRun) invalidOp(f *syncFollower, cur []types.Hash, p int, forceKind 
 	if forceKind != "" {
 		ck = forceKind
 	}
+	// InsertChain never looks at the delivered copy of an account block the node already pools under the same (address, hash,
+	// height): `if patch := c.chain.GetPatch(…); patch != nil { continue }`, and the momentum is then built from the pooled, verified
+	// block. A corruption confined to the body of such a block (blocksig, blockamount) is therefore not a corruption of what the node
+	// verifies. Blocks get pooled by an earlier batch whose momentum was refused, and may come back into the pool when the momentums
+	// that contain them on the node's own chain are rolled back.
+	ignored := false
+	if ck == "blocksig" || ck == "blockamount" {
+		if ub := lastUserBlock(b[pos].dm); ub >= 0 {
+			blk := b[pos].dm.AccountBlocks[ub]
+			pooled := f.ch.GetPatch(blk.Address, blk.Identifier()) != nil
+			rolledBack := false
+			for _, mh := range r.hist.blockIn[blk.Hash] {
+				if n := r.hist.byHash[mh]; int(n.height) > forkAt && int(n.height) <= H && cur[n.height-1] == mh {
+					rolledBack = true
+				}
+			}
+			switch {
+			case pooled && forkAt == H && pos == first:
+				// certain: the first unknown element extends the frontier, its block is pooled now — the delivered copy is skipped
+				ignored = true
+			case pooled || rolledBack:
+				// whether the block is pooled when its element is reached depends on the pool rebuilds in between: use a
+				// corruption of the momentum itself instead
+				ck = "changes"
+				c.Hit("corrupt-block-known-fallback")
+			}
+		}
+	}
 	corrupt(c, r.hist, &b[pos], ck)
+	if ignored && (b[pos].note == "blocksig" || b[pos].note == "blockamount") {
+		b[pos].valid = true
+		b[pos].note += "-of-pooled-block"
+		c.Hit("corrupt-ignored-pooled-block")
+	}
 	c.Hit(fmt.Sprintf("invalid-at-%s", map[bool]string{true: "first", false: map[bool]string{true: "last", false: "middle"}[pos == len(b)-1]}[pos == first]))
 	return r.deliver(f, kind+"-"+b[pos].note, b)
 }
